@@ -23,14 +23,20 @@ const P384_ORDER: [u8; 48] = [
     0x37, 0x2d, 0xdf, 0x58, 0x1a, 0x0d, 0xb2, 0x48, 0xb0, 0xa7, 0x7a, 0xec, 0xec, 0x19, 0x6a, 0xcc, 0xc5, 0x29, 0x73,
 ];
 fn p384_scalar_ok(b: &[u8]) -> bool {
+    if b.len() != 48 {
+        return false;
+    }
+    // 0 < b < n as six big-endian 64-bit words (lexicographic), cheaper for the solver than 48 bytes
+    let w = |x: &[u8], i: usize| u64::from_be_bytes([x[8 * i], x[8 * i + 1], x[8 * i + 2], x[8 * i + 3], x[8 * i + 4], x[8 * i + 5], x[8 * i + 6], x[8 * i + 7]]);
     let mut nonzero = false;
     let mut less = false;
     let mut decided = false;
     let mut i = 0;
-    while i < 48 {
-        nonzero |= b[i] != 0;
-        if !decided && b[i] != P384_ORDER[i] {
-            less = b[i] < P384_ORDER[i];
+    while i < 6 {
+        let (x, n) = (w(b, i), w(&P384_ORDER, i));
+        nonzero |= x != 0;
+        if !decided && x != n {
+            less = x < n;
             decided = true;
         }
         i += 1;
